@@ -225,6 +225,7 @@ def default_val(t):
     if k == "S":
         return ("S", [default_val(f) for f in t[1]])
     if k == "E":
+        # the #[default_init] variant is the FIRST listed variant of the descriptor (harness/src/shapes.rs enum_node!)
         d, vt = t[2][0]
         return ("E", d, default_val(vt))
     raise ValueError(t)
@@ -318,7 +319,8 @@ class Shape:
         self.index, self.desc, self.ty, self.roles = index, desc, ty, roles
 
 
-# roles: path (tuple of raw indices) -> 'map' | 'set' | 'string' | 'umap'; filled per harness shape index
+# roles: path (tuple of raw indices, '*' for a list element, 'V' for an enum's live payload) -> 'map' | 'set' | 'string' |
+# 'umap'; filled per harness shape index
 def role_at(shape_index, tpath):
     return ROLES.get(shape_index, {}).get(tuple(tpath))
 
@@ -360,6 +362,8 @@ def fix_roles(shape_index, t, v, rng, tpath=()):
         return ("S", [fix_roles(shape_index, ft, fv, rng, tpath + (i,)) for i, (ft, fv) in enumerate(zip(t[1], v[1]))])
     if k == "U":
         return ("U", [(key, fix_roles(shape_index, t[1], e, rng, tpath + ("*",))) for key, e in v[1]])
+    if k == "E":
+        return ("E", v[1], fix_roles(shape_index, dict(t[2])[v[1]], v[2], rng, tpath + ("V",)))
     return v
 
 
